@@ -32,6 +32,8 @@ class World:
         self.unload_error = None
         self.listener_errors = []
         self.marks = []
+        self.mark_times = []
+        self.t0 = loop.time()
         self.kind = "basic"
 
     # ---- building
@@ -79,6 +81,7 @@ class World:
             return None
         if asyncio.iscoroutine(r):
             self.marks.append(len(self.rec.events))     # an API coroutine of T is in flight from here on
+            self.mark_times.append(round(self.loop.time() - self.t0, 3))
             return self.spawn(r)
         return r
 
@@ -217,6 +220,14 @@ class DHTScenario(Scenario):
         for _ in range(3):
             w.node(c)
 
+    def ghost(self, i):
+        """A DHT node that never answers (deterministic key: distances decide the order of a crawl)."""
+        from ipv8.dht.routing import Node as DhtNode
+        from ipv8.keyvault.crypto import default_eccrypto
+        from ipv8.messaging.interfaces.udp.endpoint import UDPv4Address
+        key = default_eccrypto.key_from_private_bin(b"LibNaCLSK:" + random.Random(4242 + i).randbytes(64))
+        return DhtNode(key.pub(), UDPv4Address("80.9.9.%d" % (i + 1), 8090))
+
     async def script(self, w):
         await self.generic(w)
         await asyncio.sleep(1)
@@ -229,14 +240,24 @@ class DHTScenario(Scenario):
         w.call(w.peers[2].overlay.find_nodes, w.t.my_peer.mid if w.t else key)
         await asyncio.sleep(1)
         await self.extra(w)
-        await asyncio.sleep(12)
+        await asyncio.sleep(3)
+        # crawls that stay in flight for seconds: T knows nodes that never answer and one peer answers late, so that
+        # part of the answers (and tokens) is there while the rest is still awaited
+        if w.loaded:
+            for i in range(3):
+                g = self.ghost(i)
+                w.on_t(lambda g=g: w.t.get_routing_table(g).add(g))
+        w.rec.slow[w.peers[2].sim_endpoint] = 0.7
+        w.on_t(w.t.store_value, b"\x44" * 20, b"second-value-from-T", False)
+        await asyncio.sleep(1.5)
+        w.on_t(w.t.find_values, key)
+        await asyncio.sleep(6)
+        w.rec.slow.clear()
+        await asyncio.sleep(4)
         await self.generic(w)
 
     async def extra(self, w):
-        from ipv8.dht.routing import Node as DhtNode
-        from ipv8.keyvault.crypto import default_eccrypto
-        ghost = DhtNode(default_eccrypto.generate_key("curve25519").pub(), ("80.9.9.9", 8090))
-        w.on_t(w.t.ping, ghost)
+        w.on_t(w.t.ping, self.ghost(9))
 
 
 class DHTDiscoveryScenario(DHTScenario):
@@ -469,7 +490,7 @@ def run_once(scen, wiring, k, seed, keys, late=True):
         asyncio.set_event_loop(None)
         vloop.uninstall()
     return {"cls": scen.name, "wiring": wiring, "kind": w.kind, "k": k if at_time is None else at_time, "seed": seed, "events": rec.events,
-            "notes": rec.notes, "script_events": info.get("script_events", 0), "done_index": info.get("done_index", 0), "marks": w.marks,
+            "notes": rec.notes, "script_events": info.get("script_events", 0), "done_index": info.get("done_index", 0), "marks": w.marks, "mark_times": w.mark_times,
             "unload_error": w.unload_error}
 
 
